@@ -8,4 +8,7 @@ cargo build --offline --release -p vserde
 cargo build --offline --release -p vnet --features plain --bin vnet_plain
 cargo build --offline --release -p vnet --features native --bin vnet_native
 cargo build --offline --release -p vnet --features rtls --bin vnet_rtls
+cd /verif/harness
 (cd /repo && cargo build --offline --release -p ipp-util --target-dir /verif/harness/target/util)
+# warm the Miri build of the core monitors (used by the C02 quick check and the thorough tiers)
+MIRIFLAGS="-Zmiri-disable-isolation -Zmiri-ignore-leaks" cargo +nightly miri run --offline -p vcore -- san --focus c19 --budget 1 >/dev/null
